@@ -94,6 +94,20 @@ static int first_holder(int i)
 	return i;
 }
 
+
+/* "ok" while every buffer's reference count equals the number of handles holding it */
+static const char *refs_state(void)
+{
+	for (int i = 0; i < nh; i++) {
+		buffer *b = hbuf(i);
+		long n = 0;
+		if (!b) continue;
+		for (int k = 0; k < nh; k++) if (hbuf(k) == b) ++n;
+		if (seam_refcount(b) != n) return "bad";
+	}
+	return "ok";
+}
+
 static void emit_all(const char *ret)
 {
 	long dead = 0, dup = 0, orph = 0, nlive = 0;
@@ -132,6 +146,7 @@ static void emit_all(const char *ret)
 	j_arr_open("typs");
 	for (int i = 0; i < nh; i++) j_item_str(hbuf(i) ? "elem" : "none");
 	j_arr_close();
+	j_str("refok", refs_state());
 	for (uint32_t id = 1; id <= next_id && id < MAXID; id++) {
 		if (!live[id]) continue;
 		++nlive;
